@@ -1,7 +1,7 @@
 // C10 E-SHIM harness: the real tbb::concurrent_hash_map of /repo under the controlled scheduler.
 //
 // usage: hm <rand|dfs|replay> <arg> [maxruns]      (scenario on stdin)
-//   rand <seed> <nruns> | dfs <preemption bound> <maxruns> | replay <t,t,t,...>
+//   rand <seed> <nruns> | guided <seed> <nruns> | dfs <preemption bound> <maxruns> | replay <t,t,t,...>
 // scenario lines:
 //   hash id | hash const <c> | hash shl <s> | hash mul <a> | hash fold <bits>     (user hash function, see HC::hash)
 //   pre <k> <k> ...          sequential pre-population insert(k -> k), outside the scheduler
@@ -44,9 +44,24 @@ static u64 hash_of(long k) {
     }
     return x;
 }
+// State hints for the guided schedule: the user-supplied HashCompare is called by the code under test at known places
+// (hash(k') of a node key during the scan of rehash_bucket; equal() during a bucket search), between two scheduling points.
+enum { HINT_NONE = 0, HINT_SCAN = 1, HINT_FOUND = 2 };
+static const int MAXT = 16;
+static long g_cur_key[MAXT];            // key of the operation each controlled thread is executing
+static unsigned long g_hint_seq[MAXT];  // bumped whenever the thread passes a hint point
+static int g_hint_kind[MAXT];
+static void hint(int kind) {
+    int me = verif::controlled() ? verif::self() : -1;
+    if (me >= 0 && me < MAXT) { g_hint_seq[me]++; g_hint_kind[me] = kind; }
+}
 struct HC {
-    std::size_t hash(const long& k) const { return (std::size_t)hash_of(k); }
-    bool equal(const long& a, const long& b) const { return a == b; }
+    std::size_t hash(const long& k) const {
+        int me = verif::controlled() ? verif::self() : -1;
+        if (me >= 0 && me < MAXT && k != g_cur_key[me]) hint(HINT_SCAN);       // a node of another key: rehash_bucket's scan
+        return (std::size_t)hash_of(k);
+    }
+    bool equal(const long& a, const long& b) const { if (a == b) hint(HINT_FOUND); return a == b; }
 };
 
 static std::atomic<int> g_touch{0};   // dummy shared word: an access to it is a scheduling point inside an accessor-holding interval
@@ -181,6 +196,37 @@ struct Recording : verif::Schedule {
     explicit Recording(verif::Schedule& s) : inner(s) {}
     int pick(int cur, const std::vector<int>& en, size_t step) override { int r = inner.pick(cur, en, step); picks.push_back(r); return r; }
 };
+// Guided schedule: random, but right after the running thread passed a hint point (it is in the middle of a rehash scan
+// / has just found the node it searched for, i.e. it holds a bucket lock and is about to upgrade, unlink or take an
+// element lock) it is, with some probability, preempted in favour of another thread that then runs for a while (until it
+// parks or its budget ends).  This steers executions into the windows "two readers of one bucket, both about to upgrade".
+struct GuidedSchedule : verif::Schedule {
+    uint64_t s; int stay; int sticky = -1; int sticky_left = 0; unsigned long seen[MAXT];
+    int p_scan, p_found;
+    GuidedSchedule(uint64_t seed, int stay_) : s(seed * 0x9E3779B97F4A7C15ull + 0x7654321ull), stay(stay_) {
+        for (int i = 0; i < MAXT; ++i) seen[i] = g_hint_seq[i];
+        p_scan = 96 + (int)(seed % 3) * 48; p_found = 32 + (int)(seed % 5) * 32;
+    }
+    uint64_t next() { s ^= s << 13; s ^= s >> 7; s ^= s << 17; return s; }
+    int pick(int cur, const std::vector<int>& en, size_t) override {
+        bool cur_en = false; for (int t : en) if (t == cur) cur_en = true;
+        if (cur >= 0 && cur < MAXT && g_hint_seq[cur] != seen[cur]) {
+            seen[cur] = g_hint_seq[cur];
+            int p = g_hint_kind[cur] == HINT_SCAN ? p_scan : p_found;
+            std::vector<int> others; for (int t : en) if (t != cur) others.push_back(t);
+            if (!others.empty() && (int)(next() & 255) < p) {
+                sticky = others[next() % others.size()]; sticky_left = 30 + (int)(next() % 90);
+                return sticky;
+            }
+        }
+        if (sticky >= 0 && sticky_left > 0) {
+            for (int t : en) if (t == sticky) { sticky_left--; return t; }
+            sticky = -1;                                    // parked or finished
+        }
+        if (cur_en && (int)(next() & 255) < stay) return cur;
+        return en[next() % en.size()];
+    }
+};
 static Recording* g_rec = nullptr;
 static int g_run_idx = 0;
 static void crash_handler(int sig) {
@@ -252,6 +298,7 @@ static bool run_once(verif::Schedule& sch0, int run_idx, bool print) {
             long val = 1000000 + 100 * (long)(t + 1) + opi;
             bool has_val = k[0] == 'i' || k[0] == 'p';
             eff[t].push_back(k == "x" ? k : k + ":" + std::to_string(op.key) + ":" + std::to_string(has_val ? val : 0));
+            if (t < (size_t)MAXT) g_cur_key[t] = (k == "x" ? held_key : op.key);
             verif::note("begin", (u64)op_code(k), (u64)(k == "x" ? held_key : op.key));
             verif::note("gen", (u64)val, 0);
             bool res = false; long rv = k == "x" ? held_gen : 0;
@@ -320,6 +367,15 @@ static bool run_once(verif::Schedule& sch0, int run_idx, bool print) {
     std::vector<bool> in_op(T, false);
     char buf[256];
     auto emit = [&](int tid, const std::string& s) { out.push_back("ev " + std::to_string(tid) + " " + s); };
+    // access-level trace for the refined model HMapR (every lock-word access with its values; node_list values)
+    std::vector<std::string> out2;
+    auto emit2 = [&](int tid, const std::string& s) { out2.push_back("rv " + std::to_string(tid) + " " + s); };
+    auto ptr_name = [&](u64 v) -> std::string {
+        if (v == 3) return "F";
+        if (v == 0) return "nil";
+        auto it = node_id.find((const void*)(uintptr_t)v);
+        return it == node_id.end() ? std::string("?") : "n" + std::to_string(it->second);
+    };
     for (size_t i = 0; i < r.log.size(); ++i) {
         const verif::Event& e = r.log[i];
         int t = e.tid;
@@ -327,15 +383,15 @@ static bool run_once(verif::Schedule& sch0, int run_idx, bool print) {
             std::string tag = e.tag ? e.tag : "";
             if (tag == "begin") {
                 open[t] = Hist{t, op_names[e.a], (long)e.b, 0, 0, i, 0, 0}; in_op[t] = true;
-                snprintf(buf, sizeof buf, "begin %s %ld", op_names[e.a], (long)e.b); emit(t, buf);
+                snprintf(buf, sizeof buf, "begin %s %ld", op_names[e.a], (long)e.b); emit(t, buf); emit2(t, buf);
             } else if (tag == "gen") { open[t].gen = (long)e.a;
             } else if (tag == "end") {
                 open[t].res = (int)e.a; open[t].val = (long)e.b; open[t].resp = i; hist.push_back(open[t]); in_op[t] = false;
-                snprintf(buf, sizeof buf, "end %d %ld", (int)e.a, (long)e.b); emit(t, buf);
+                snprintf(buf, sizeof buf, "end %d %ld", (int)e.a, (long)e.b); emit(t, buf); emit2(t, buf);
             } else if (tag == "free") {
                 const void* np = (const char*)(uintptr_t)e.a - g_val_off;
                 auto it = node_id.find(np);
-                if (it != node_id.end()) { emit(t, "free " + std::to_string(it->second)); }
+                if (it != node_id.end()) { emit(t, "free " + std::to_string(it->second)); emit2(t, "free " + std::to_string(it->second)); }
             } else if (tag == "snap") {
                 const Snap& sn = g_snaps[e.a];
                 std::string s = "snap " + std::to_string(sn.mask) + " " + std::to_string(sn.size);
@@ -348,7 +404,7 @@ static bool run_once(verif::Schedule& sch0, int run_idx, bool print) {
                         first = false;
                     }
                 }
-                emit(t, s);
+                emit(t, s); emit2(t, s);
             }
             continue;
         }
@@ -361,6 +417,12 @@ static bool run_once(verif::Schedule& sch0, int run_idx, bool print) {
         u64 idx = is_elem ? (u64)eit->second : vit->second.idx;
         if (is_elem || vk == V_BLOCK) {
             const char* pre = is_elem ? "e" : "b";
+            {   // raw: <bw|ew> <idx> <kind> <a> <b> <ok>   (load: value 0 1; cas: expected, desired | observed; fetch_*: old new)
+                unsigned long long ra = e.a, rb = e.kind == verif::K_LOAD ? 0 : e.b;
+                snprintf(buf, sizeof buf, "%sw %llu %s %llu %llu %d @%s", pre, (unsigned long long)idx, verif::kind_name(e.kind), ra, rb,
+                         e.kind == verif::K_LOAD ? 1 : e.ok, verif::order_name(e.order));
+                emit2(t, buf);
+            }
             LS& s = ls[{t, e.addr}];
             std::string lab;
             long long delta = (long long)e.b - (long long)e.a;
@@ -392,6 +454,18 @@ static bool run_once(verif::Schedule& sch0, int run_idx, bool print) {
             }
             continue;
         }
+        std::string ord = std::string(" @") + verif::order_name(e.order);
+        size_t n_before = out.size();
+        if (vk == V_BLIST) {
+            if (e.kind == verif::K_LOAD) emit2(t, "ldl " + std::to_string(idx) + " " + ptr_name(e.a) + ord);
+            else if (e.kind == verif::K_STORE) {
+                // a node linked by this store gets its id first
+                if (pending_link[t] >= 0 && Map::base_type::is_valid((void*)(uintptr_t)e.a) && !node_id.count((const void*)(uintptr_t)e.a)) {
+                    reg_node((const void*)(uintptr_t)e.a, pending_link[t]); pending_link[t] = -1;
+                }
+                emit2(t, "stl " + std::to_string(idx) + " " + ptr_name(e.a) + ord);
+            } else emit2(t, "?list");
+        }
         switch (vk) {
         case V_MASK:
             if (e.kind == verif::K_LOAD) emit(t, "ldmask " + std::to_string(e.a));
@@ -419,6 +493,7 @@ static bool run_once(verif::Schedule& sch0, int run_idx, bool print) {
             } else emit(t, "?list");
             break;
         }
+        if (vk != V_BLIST) for (size_t q = n_before; q < out.size(); ++q) out2.push_back("rv" + out[q].substr(2) + ord);
     }
 
     // ---- final content (sequential, after all threads finished) ------------------------------------------------
@@ -469,6 +544,7 @@ static bool run_once(verif::Schedule& sch0, int run_idx, bool print) {
         printf("run %d\n", run_idx);
         for (size_t t = 0; t < T; ++t) { printf("eff %zu", t); for (auto& o : eff[t]) printf(" %s", o.c_str()); printf("\n"); }
         for (auto& l : out) puts(l.c_str());
+        for (auto& l : out2) puts(l.c_str());
         for (auto& h : hist) printf("h %d %s %ld %d %ld %zu %zu\n", h.tid, h.op.c_str(), h.key, h.res, h.val, h.inv, h.resp);
         for (size_t t = 0; t < T; ++t) if (in_op[t]) printf("h %d %s %ld -1 0 %zu %zu\n", (int)t, open[t].op.c_str(), open[t].key, open[t].inv, r.log.size());
         if (!fin.empty()) puts(fin.c_str());
@@ -518,6 +594,9 @@ int main(int argc, char** argv) {
     if (mode == "rand") {
         u64 seed = strtoull(argv[2], 0, 10);
         for (long i = 0; i < maxruns; ++i) { verif::RandomSchedule s(seed * 7919 + i, 32 + (int)(i % 4) * 64); if (!run_once(s, (int)i, true)) bad++; runs++; }
+    } else if (mode == "guided") {
+        u64 seed = strtoull(argv[2], 0, 10);
+        for (long i = 0; i < maxruns; ++i) { GuidedSchedule s(seed * 104729 + i, 64 + (int)(i % 3) * 64); if (!run_once(s, (int)i, true)) bad++; runs++; }
     } else if (mode == "dfs") {
         verif::DfsSchedule d(atoi(argv[2]));
         do { if (!run_once(d, (int)runs, false)) { bad++; break; } runs++; } while (runs < maxruns && d.next());
